@@ -13,6 +13,8 @@ import (
 
 func init() {
 	Register(&Scenario{Prop: "C15", Name: "concurrent-ops", Strict: false, Quick: 10, Thorough: 10, Run: func(rc *RunCtx) *simkit.Violation { return runC15(rc) }})
+	// mode A with the in-memory yield points of pkg/cafs switched on (readers holding pinned leaf buffers can be overtaken)
+	Register(&Scenario{Prop: "C15", Name: "concurrent-ops-yields", Strict: false, Quick: 3, Thorough: 4, Cfg: simkit.Config{Yields: true}, Run: func(rc *RunCtx) *simkit.Violation { return runC15(rc) }})
 	// mode B: the same workloads with the scheduler off (stores answer at once, real parallelism), meant for the
 	// -race build: runtime detection, not simulation (DESIGN §6 C15)
 	Register(&Scenario{Prop: "C15", Name: "race-stress", Strict: false, Quick: 0, Thorough: 0, NoBubble: true, Run: func(rc *RunCtx) *simkit.Violation { return runC15(rc) }})
